@@ -37,7 +37,7 @@ _state = {"ctx": None}
 
 def gen_cases(tier, rng):
     cases = []
-    maxb, maxd, maxh = (4, 6, 220) if tier == "quick" else (5, 7, 800)
+    maxb, maxd, maxh = (4, 14, 460) if tier == "quick" else (6, 22, 1400)
     for nb in range(1, maxb + 1):
         for depth in range(0, maxd + 1):
             hs = math.comb(nb + depth, depth)
